@@ -19,6 +19,7 @@ struct Lit {
     int specialTag = -1;     // >= 0: special mnemonic
     bool nearMissSpecial = false;
     bool innerWs = false, hasExp = false, hasFrac = false, hasSign = false, boundary = false;
+    bool decoy = false;       // a second instrument with another unit table is fed the same bytes first (fixture.hpp)
     int prelude = 0;          // 1..5: another literal, one that leaves libc's range-error state behind, is decoded first on the same context
     int digits = 0;
 };
@@ -150,6 +151,7 @@ static Lit decode(Src &s) {
         l.text = t; l.canon = t;
     }
     if (s.prob(1, 4)) l.prelude = (int) s.range(1, 5);
+    l.decoy = s.prob(1, 4);
     return l;
 }
 
@@ -157,11 +159,12 @@ static std::string describe(const Lit &l) { return fmt("reader=%s literal '", kR
 
 static bool g_armLit = false;
 static std::string checkLit(const Lit &l, bool *nt = nullptr) {
-    if (g_armLit) armCase("sub=lit\nreader=" + std::to_string((int) l.reader) + "\ntext=" + hexEnc(l.text) + "\nunit=" + std::to_string(l.unitIdx) + "\ncanon=" + hexEnc(l.canon) + "\nprelude=" + std::to_string(l.prelude) + "\n");
+    if (g_armLit) armCase("sub=lit\nreader=" + std::to_string((int) l.reader) + "\ntext=" + hexEnc(l.text) + "\nunit=" + std::to_string(l.unitIdx) + "\ncanon=" + hexEnc(l.canon) + "\nprelude=" + std::to_string(l.prelude) + "\ndecoy=" + std::to_string((int) l.decoy) + "\n");
     InstCfg k; k.bufLen = l.text.size() + 16; k.queueLen = 4;
     Cmd c; c.pattern = "CMD"; Reader r; r.kind = l.reader; c.script.readers.push_back(r); k.cmds.push_back(c);
     static const struct { RKind rd; const char *text; } kPrelude[] = {{R_F32, "1E-50"}, {R_F32, "3.5E38"}, {R_F64, "1e400"}, {R_F64, "-1e-400"}, {R_I64, "99999999999999999999"}};
     if (l.prelude) { Cmd p; p.pattern = "PRE"; Reader pr; pr.kind = kPrelude[l.prelude - 1].rd; p.script.readers.push_back(pr); k.cmds.push_back(p); k.bufLen += 32; }
+    k.decoy = l.decoy;
     errno = 0;      // a case does not inherit libc state from the case before it; what precedes the literal is part of the case
     Inst I(k);
     if (l.prelude) {
@@ -211,6 +214,7 @@ static std::string body(Src &s, Ev &ev) {
     ev.label(std::string(kRName[l.reader]) + (l.specialTag >= 0 ? "-special" : l.unitIdx >= 0 ? "-suffix" : l.base != 10 ? "-nondecimal" : "-decimal"));
     if (l.innerWs) ev.label("white-space-inside-number");
     if (l.prelude) ev.label("after-out-of-range-literal");
+    if (l.decoy) ev.label("with-second-instrument-interleaved");
     if (l.boundary) ev.label(l.reader == R_F32 ? "float-rounding-boundary" : "double-rounding-boundary");
     if (nt) ev.nt(hashStr(std::to_string((int) l.reader) + l.text));
     if (nt && ev.wantSample()) ev.sample(describe(l));
@@ -245,7 +249,7 @@ static void runTable(const Opt &o, Ev &ev) {
 int main(int argc, char **argv) {
     std::vector<Sub> subs;
     auto replayLit = [](const Replay &r) {
-        Lit l; l.reader = (RKind) r.num("reader", R_NUM); l.text = hexDec(r.get("text")); l.canon = hexDec(r.get("canon")); l.unitIdx = (int) r.num("unit", -1); l.prelude = (int) r.num("prelude", 0);
+        Lit l; l.reader = (RKind) r.num("reader", R_NUM); l.text = hexDec(r.get("text")); l.canon = hexDec(r.get("canon")); l.unitIdx = (int) r.num("unit", -1); l.prelude = (int) r.num("prelude", 0); l.decoy = r.num("decoy", 0) != 0;
         if (l.canon.empty()) return std::string("replay of a crash case: run it through the rand sub-check (no expected value recorded)");
         return checkLit(l);
     };
